@@ -15,6 +15,8 @@ package crypto
 //@ trusted func Keccak256(data [][]byte) (r []byte)
 //@   ensures fresh(r) && len(r) == 32
 //@   ensures len(data) == 1 ==> content(r) == keccak(content(data[0]))
+//@ trusted func Keccak256Hash(data [][]byte) (h common.Hash)
+//@   ensures len(data) == 1 ==> content(h) == keccak(content(data[0]))
 
 // Signature verification against an address, and the address of a public key, as pure functions.
 //@ spec func sigOKc(addr common.Address, hash Content, sig Content) bool
